@@ -1,6 +1,8 @@
 import AlgoVerif.Proofs.C08Total6
 import AlgoVerif.Proofs.C08LeftRecMain
 import AlgoVerif.Proofs.C08LeftFactorMain
+import AlgoVerif.Proofs.C08LeftRecTotal
+import AlgoVerif.Proofs.C08LeftFactorTotal
 /-!
 # C08 — CFG transformations preserve the generated language (statements; proofs in `Proofs/C08*.lean`)
 
@@ -243,6 +245,24 @@ theorem C08_leftrecursion (g g' : G) (hv : Valid g) (h : elimLeftRec g = .ok g')
 
 /-- `LeftFactor` preserves the language (both inclusions), for every valid grammar on which the Model
 returns (i.e. unless the documented fresh-name panic occurs). -/
-theorem C08_leftfactoring (g g' : G) (hv : Valid g) (hh : Hygienic g) (h : leftFactor g = .ok g') :
+theorem C08_leftfactoring (g g' : G) (hv : Valid g) (h : leftFactor g = .ok g') :
     SameLanguage g g' :=
-  AlgoVerif.C08.C08_leftfactor hv hh h
+  AlgoVerif.C08.C08_leftfactor_of_wellFormed hv.wellFormed h
+
+/-- Totality of `EliminateLeftRecursion`: for every valid hygienic grammar with a non-empty language the Model
+returns (no panic: a primed name is always free; no divergence), the result has the same language and no left
+recursion. -/
+theorem C08_leftrecursion_total (g : G) (hv : Valid g) (hh : Hygienic g) (hl : ∃ w, Language g w) :
+    ∃ g', elimLeftRec g = .ok g' ∧ SameLanguage g g' ∧ AlgoVerif.C09.Spec.NoLeftRecursion g' :=
+  AlgoVerif.C08.C08_leftrec_total g hv hh hl
+
+/-- Totality of `LeftFactor`: the repeat-until-stable loop never runs out of the Model's fuel, and the only panic
+is `AddNewNonTerminal` running out of its four primed names (`lfNamesSuffice g`, a computable test; the known
+finding `C08-fresh-names-exhausted` is its negation). -/
+theorem C08_leftfactoring_total (g : G) (hv : Valid g) (hn : AlgoVerif.C08.lfNamesSuffice g = true) :
+    ∃ g', leftFactor g = .ok g' ∧ SameLanguage g g' :=
+  AlgoVerif.C08.C08_leftfactor_total hv hn
+
+/-- `LeftFactor` never diverges on a well-formed grammar. -/
+theorem C08_leftfactoring_ne_diverge (g : G) (hw : WellFormed g) : leftFactor g ≠ .diverge :=
+  AlgoVerif.C08.C08_leftfactor_ne_diverge hw
